@@ -10,8 +10,8 @@ from . import common as C
 
 SL = 0x2F
 CTOR_BORROWED = ["ustr_bytes", "ustr_str"]
-CTOR_OWNED = ["ustring_bytes", "ustring_vec", "ustring_str", "ustring_string", "ustring_fromstr"]
-STR_OPS = {"ustr_str", "ustring_str", "ustring_string", "ustring_fromstr", "const", "format"}
+CTOR_OWNED = ["ustring_bytes", "ustring_vec", "ustring_vec_cap", "ustring_str", "ustring_string", "ustring_string_cap", "ustring_fromstr"]
+STR_OPS = {"ustr_str", "ustring_str", "ustring_string", "ustring_string_cap", "ustring_fromstr", "const", "format"}
 LITS = [b"", b"a", b"/", b".", b"a/b", b"/etc/passwd", b"hello/there/friend", b"//"]
 
 
@@ -184,13 +184,13 @@ def gen_cases(ctx):
             t = s[:i] + b"\0" + s[i:]          # interior NUL
         if k == 2:
             t = s[:-1] + b"\0\0"               # NUL at the second-to-last position too
-        for op in ["ustr_bytes", "ustring_bytes", "ustring_vec", "dname", "parent", "file_name", "own"]:
+        for op in ["ustr_bytes", "ustring_bytes", "ustring_vec", "ustring_vec_cap", "dname", "parent", "file_name", "own"]:
             cases.append("%s %s" % (op, hx(t)))
         cases.append("parent %s" % hx(s + b"\0"))
         cases.append("file_name %s" % hx(s + b"\0"))
     for s in long_random(r, nl, [0x61, 0x62, SL, 0x2E, 0x7F, 0x01]):
         t = s + (b"\0" if r.chance(1, 3) else b"")
-        for op in ["ustr_str", "ustring_str", "ustring_string", "ustring_fromstr", "const", "format"]:
+        for op in ["ustr_str", "ustring_str", "ustring_string", "ustring_string_cap", "ustring_fromstr", "const", "format"]:
             cases.append("%s %s" % (op, hx(t)))
         u = r.bytes(r.range(0, 3000), [0x61, SL, 0x2E])
         cases.append("join %s %s" % (hx(s + b"\0"), hx(u + b"\0")))
